@@ -345,7 +345,9 @@ pub fn run_property(prop: &dyn Property, opts: &RunOpts) -> i32 {
     let t0 = Instant::now();
     let id = prop.id();
     let workloads = prop.workloads(opts.tier);
-    let known = load_known(&format!("{}/KNOWN_FINDINGS.txt", opts.verif_dir));
+    // the list of recorded findings lives next to the check script (VERIF_HOME), wherever the evidence goes
+    let known_home = std::env::var("VERIF_HOME").unwrap_or_else(|_| opts.verif_dir.clone());
+    let known = load_known(&format!("{}/KNOWN_FINDINGS.txt", known_home));
 
     let total_cov: Mutex<BTreeMap<String, u64>> = Mutex::new(BTreeMap::new());
     let total_hooks: Mutex<BTreeMap<String, u64>> = Mutex::new(BTreeMap::new());
